@@ -389,7 +389,9 @@ func (p *parser) directive() error {
 			p.cursor-- // cursor is advanced when we continue, so roll back one more
 			continue
 		}
-		p.tokens[p.cursor].Text = replaceEnvVars(p.tokens[p.cursor].Text)
+		text := replaceEnvVars(p.tokens[p.cursor].Text)
+		p.tokens[p.cursor].envLineBreaks += strings.Count(text, "\n") - strings.Count(p.tokens[p.cursor].Text, "\n")
+		p.tokens[p.cursor].Text = text
 		p.block.Tokens[dir] = append(p.block.Tokens[dir], p.tokens[p.cursor])
 	}
 
